@@ -19,13 +19,24 @@ use std::sync::{Barrier, Mutex};
 
 pub const THREADS: usize = 8;
 
+/// Multiplier of the number of concurrent rounds (and sessions); 0 disables the concurrent phases.
+/// The driver runs the 16 shards of a variant at the same time, which oversubscribes the cores: 8
+/// threads of one shard then mostly take turns instead of running at once, and windows of a few
+/// nanoseconds are never hit. The driver therefore runs a dedicated pass (`par` variant: 2 shards,
+/// a small sequential part, many rounds) on an otherwise idle machine and sets 0 for the others.
+pub static PAR_MULT: std::sync::atomic::AtomicUsize = std::sync::atomic::AtomicUsize::new(1);
+pub fn par_mult() -> usize {
+    PAR_MULT.load(std::sync::atomic::Ordering::Relaxed)
+}
+
 /// Compute `f` for every item once on the calling thread, then `rounds` times on each of
 /// `THREADS` threads concurrently (each thread walks the items in its own order); returns the
 /// number of concurrent evaluations and a description of every deviation (capped).
 pub fn par_same<T: Sync, R: PartialEq + Send + Sync + std::fmt::Debug>(items: &[T], f: impl Fn(&T) -> R + Sync, rounds: usize) -> (u64, Vec<(usize, String)>) {
-    if items.is_empty() {
+    if items.is_empty() || par_mult() == 0 {
         return (0, Vec::new());
     }
+    let rounds = rounds * par_mult();
     let expected: Vec<R> = items.iter().map(|t| f(t)).collect();
     let bad: Mutex<Vec<(usize, String)>> = Mutex::new(Vec::new());
     let barrier = Barrier::new(THREADS);
@@ -78,8 +89,10 @@ pub fn report_par(rep: &mut Report, prop: &str, what: &str, execs: u64, bad: Vec
     }
 }
 
-#[derive(PartialEq, Debug, Clone)]
+#[derive(Debug, Clone)]
 struct ExecOut {
+    /// error text, for the report only (may contain addresses: not compared)
+    note: String,
     /// 0 Ok, 1 Err, 2 panic, 3 refused/compile error
     status: u8,
     value: u64,
@@ -92,6 +105,12 @@ struct ParCase<'a> {
     case: &'a crate::genp::Case,
     pkt_mask: &'a [bool],
     mbuff_mask: &'a [bool],
+}
+
+impl PartialEq for ExecOut {
+    fn eq(&self, o: &ExecOut) -> bool {
+        self.status == o.status && self.value == o.value && self.pkt == o.pkt && self.mbuff == o.mbuff
+    }
 }
 
 fn run_one(p: &ParCase, engine: Engine) -> ExecOut {
@@ -121,13 +140,13 @@ fn run_one(p: &ParCase, engine: Engine) -> ExecOut {
     });
     // only the bytes within the claim (address independent) are kept
     let mask = |bytes: Vec<u8>, m: &[bool]| -> Vec<u8> { if m.len() == bytes.len() { bytes.iter().zip(m.iter()).map(|(b, k)| if *k { *b } else { 0 }).collect() } else { Vec::new() } };
-    let (status, value) = match r {
-        Ok(Ok(Ok(v))) => (0, v),
-        Ok(Ok(Err(_))) => (1, 0),
-        Ok(Err(_)) => (3, 0),
-        Err(_) => (2, 0),
+    let (status, value, note) = match r {
+        Ok(Ok(Ok(v))) => (0, v, String::new()),
+        Ok(Ok(Err(e))) => (1, 0, e.chars().take(120).collect()),
+        Ok(Err(e)) => (3, 0, e.chars().take(120).collect()),
+        Err(p) => (2, 0, p.chars().take(120).collect()),
     };
-    ExecOut { status, value, pkt: mask(bufs.pkt_bytes(), p.pkt_mask), mbuff: mask(bufs.mbuff_bytes(), p.mbuff_mask) }
+    ExecOut { note, status, value, pkt: mask(bufs.pkt_bytes(), p.pkt_mask), mbuff: mask(bufs.mbuff_bytes(), p.mbuff_mask) }
 }
 
 /// Concurrent executions (and, for the compilers, concurrent compilations) of address-independent
@@ -142,12 +161,16 @@ pub fn exec_par_rounds(rep: &mut Report, prop: &str, batch: &[Pre], engine: Engi
         .filter(|p| {
             let value = matches!(p.rr.outcome, Outcome::Value(_)) && matches!(p.ir.ran, Ran::Ok(_));
             // error paths too, for the interpreter (refused accesses, call depth): the error must be the same
-            let refused = engine == Engine::Interp && matches!(p.rr.outcome, Outcome::Oob { .. } | Outcome::Misaligned { .. } | Outcome::DepthExceeded { .. }) && matches!(p.ir.ran, Ran::Err(_));
+            // (a refused access is only address independent when no second heap-allocated region
+            // exists: on the fixed VM an access below the heap-allocated stack can land inside the
+            // heap-allocated internal buffer in one thread's heap layout and not in another's)
+            let oob_ok = matches!(p.rr.outcome, Outcome::Oob { .. }) && p.case.kind != crate::engines::Kind::Fixed;
+            let refused = engine == Engine::Interp && (oob_ok || matches!(p.rr.outcome, Outcome::Misaligned { .. } | Outcome::DepthExceeded { .. })) && matches!(p.ir.ran, Ran::Err(_));
             (value || refused) && !p.rr.neg_ldabs && p.case.prog.len() <= 8 * 4200 * 2
         })
         .map(|p| ParCase { case: &p.case, pkt_mask: &p.rr.pkt_mask, mbuff_mask: &p.rr.mbuff_mask })
         .collect();
-    if elig.is_empty() || cfg!(miri) {
+    if elig.is_empty() || cfg!(miri) || par_mult() == 0 {
         return;
     }
     let ends = sys::run_batch(1, 300, 300, |_i, out| {
